@@ -637,3 +637,12 @@ def run(res, facts, tier):
     _run_c09_prev8(res, facts, tier)
     from . import c09_match
     c09_match.run_rule(res, facts, tier)
+
+
+_run_c09_prev9 = run
+
+
+def run(res, facts, tier):
+    _run_c09_prev9(res, facts, tier)
+    from . import c10_lookup
+    c10_lookup.run_c09_rule(res, facts, tier)
